@@ -192,6 +192,8 @@ type vfC14Env struct {
 	execGate map[int]*vfGate
 	results  map[int]string
 	cancels  map[int]context.CancelFunc
+	looks    map[int]int // cache lookups per executor
+	removes  int         // remove(key) calls of failed flights
 
 	gmu    sync.Mutex
 	execOf map[int64]int
@@ -261,7 +263,7 @@ func vfC14NewEnv(H, C, max int, uniq bool, seed int64, hold bool) (*vfC14Env, er
 	env := &vfC14Env{max: max, uniq: uniq, hold: hold, tab: map[vfC14Key]*vfC14NodeEnt{}, rng: rand.New(rand.NewSource(seed)),
 		hidOf: map[string]string{}, conns: map[[2]string]*Conn{}, execOf: map[int64]int{}, execSeen: map[int]int{},
 		sendMap: map[[2]int]int{}, heldExec: map[int]*vfC14Held{}, execGate: map[int]*vfGate{}, results: map[int]string{},
-		cancels: map[int]context.CancelFunc{}}
+		cancels: map[int]context.CancelFunc{}, looks: map[int]int{}}
 	env.sc = vfNewScope()
 	env.tr = env.sc.tr
 	env.cl = &vfCluster{Partitioner: "org.apache.cassandra.dht.Murmur3Partitioner", Version: "3.11.4"}
@@ -375,9 +377,13 @@ func (env *vfC14Env) onEvent(point string, obj interface{}, s string, a int, err
 	switch point {
 	case "lru_hit":
 		env.tr.Emit("c_hit", "by", own, "key", key.arr(), "kok", kok, "len", a)
+		env.mu.Lock()
+		env.looks[own]++
+		env.mu.Unlock()
 	case "lru_miss":
 		env.tr.Emit("c_miss", "by", own, "key", key.arr(), "kok", kok, "len", a)
 		env.mu.Lock()
+		env.looks[own]++
 		env.flights = append(env.flights, &vfC14Flight{by: own})
 		env.mu.Unlock()
 	case "lru_remove":
@@ -386,6 +392,9 @@ func (env *vfC14Env) onEvent(point string, obj interface{}, s string, a int, err
 			by = own
 		}
 		env.tr.Emit("c_remove", "by", by, "key", key.arr(), "kok", kok, "len", a)
+		env.mu.Lock()
+		env.removes++
+		env.mu.Unlock()
 	case "lru_evict":
 		env.tr.Emit("c_evict", "by", own, "key", key.arr(), "kok", kok, "len", a)
 	default:
